@@ -519,6 +519,9 @@ pub(crate) enum Error {
         ty2: PotentialType,
         constraint_reason: ConstraintReason,
     },
+    InfiniteType {
+        ty: PotentialType,
+    },
     MemberAccessNeedsAnnotation {
         node: AstNode,
     },
